@@ -141,7 +141,7 @@ def run(c):
     tf = os.path.join(c.scratch, "trees.json")
     json.dump(trees, open(tf, "w"))
     out1 = os.path.join(c.scratch, "tree.ndjson")
-    budget = c.pick(45, 600)
+    budget = c.pick(35, 420)
     p = c.run([binp, "tree", tf, out1, c.datadir("tree"), str(budget)], env=env, timeout=budget * 3 + 300)
     walk = json.loads(p.stdout.strip().splitlines()[-1])
     tree_traces = [(n, norm(e)) for n, e in vlib.split_traces(vlib.read_ndjson(out1))]
@@ -158,7 +158,7 @@ def run(c):
 
     # 4. long random programs on raw 66-slot blocks, moduli 1,2,3,4,250, overflow into further segment files
     out2 = os.path.join(c.scratch, "random.ndjson")
-    nrand, nops = c.pick(10, 60), c.pick(260, 500)
+    nrand, nops = c.pick(10, 40), c.pick(220, 400)
     c.run([binp, "random", out2, c.datadir("random"), str(nrand), str(nops)], env=env, timeout=c.pick(600, 2400))
     rnd_traces = [(n, norm(e)) for n, e in vlib.split_traces(vlib.read_ndjson(out2))]
 
